@@ -186,13 +186,25 @@ def run(c):
     for li, l in enumerate(lists):
         for execfd in (False, True):
             ccases.append({"id": len(ccases), "pool": 4, "list": l, "execfd": execfd, "sync": li % 3 == 1, "sync_after": li % 3 == 2 and li % 2 == 0})
+    # the executable descriptor together with a cgroup descriptor; an interpreter script as the executable descriptor
+    for l in ([0, 1, 2], [1], [], [2, 2, 0, 1]):
+        ccases.append({"id": len(ccases), "pool": 4, "list": l, "execfd": True, "cgroupfd": True, "sync": False, "sync_after": False})
+        ccases.append({"id": len(ccases), "pool": 4, "list": l, "execfd": False, "cgroupfd": True, "sync": True, "sync_after": False})
+        ccases.append({"id": len(ccases), "pool": 4, "list": l, "execfd": False, "script": True, "sync": False, "sync_after": False})
     cobs = c.run_harness(cexe, ccases, env=dict(os.environ, VERIF_SCRATCH=cscr), timeout=900)
     for x, o in zip(ccases, cobs):
         if "harness_err" in o:
             raise RuntimeError(o["harness_err"])
-        c.count(("container", tuple(x["list"]), x["execfd"], x["sync"], x["sync_after"]), nontrivial=len(x["list"]) != 3 or x["list"] != [0, 1, 2],
+        if "skipped" in o:
+            continue
+        if x.get("script") and o.get("status") != 1 and "table" not in o:
+            # an interpreter script as the executable descriptor is not supported by this tree: nothing ran, nothing to compare
+            c.count(("container-script-refused", tuple(x["list"])), klass="container:script-refused")
+            continue
+        c.count(("container", tuple(x["list"]), x["execfd"], x["sync"], x["sync_after"], x.get("cgroupfd"), x.get("script")), nontrivial=len(x["list"]) != 3 or x["list"] != [0, 1, 2],
                 klass="container:%d-entries" % min(len(x["list"]), 4))
-        canon = lambda what, **kw: dict({"kind": "descriptor-table", "what": what, "mode": "container", "entries": len(x["list"]), "exec_descriptor": x["execfd"]}, **kw)
+        canon = lambda what, **kw: dict({"kind": "descriptor-table", "what": what, "mode": "container", "entries": len(x["list"]), "exec_descriptor": x["execfd"]},
+                                        **dict(kw, **({"cgroup_descriptor": True} if x.get("cgroupfd") else {}), **({"script": True} if x.get("script") else {})))
         if o.get("status") != 1 or "table" not in o:
             c.finding_or_violation(canon("a program started in the container with this list did not run or report", status=o.get("status"), error=str(o.get("error"))[:80]),
                                    {"case": x, "observed": o})
